@@ -182,7 +182,8 @@ Section Inv.
                 nth_error (o_incs o) k = Some oi -> oi_wire oi = WMaybe ->
                 (oi_when oi <= s_now s)%N \/ In (oi_id oi) (s_cancels s);
     (* the timer of an entry that has no owner yet is the one start_request armed *)
-    u_pend_timer : forall e, In e (s_inflight s) -> (forall hr, In hr (s_handlers s) -> h_h hr <> e_h e) ->
+    u_pend_timer : c_err (o_v o) = false ->
+                   forall e, In e (s_inflight s) -> (forall hr, In hr (s_handlers s) -> h_h hr <> e_h e) ->
                      In (e_id e, when_of (s_now s) (e_dl e)) (s_timers s);
     u_abfresh : forall h, In h (s_aborted s) -> h < s_next_h s
   }.
@@ -198,6 +199,16 @@ Section Steps.
     s_handlers s' = s_handlers s /\ s_next_h s' = s_next_h s /\ s_inflight s' = s_inflight s
     /\ s_timers s' = s_timers s /\ s_aborted s' = s_aborted s /\ s_cancels s' = s_cancels s
     /\ s_now s' = s_now s /\ s_dropped s' = s_dropped s.
+  Definition same_core_but_handlers (s s' : st) : Prop :=
+    s_next_h s' = s_next_h s /\ s_inflight s' = s_inflight s
+    /\ s_timers s' = s_timers s /\ s_aborted s' = s_aborted s /\ s_cancels s' = s_cancels s
+    /\ s_now s' = s_now s /\ s_dropped s' = s_dropped s.
+  Definition same_core_but_now (s s' : st) : Prop :=
+    s_handlers s' = s_handlers s /\ s_next_h s' = s_next_h s /\ s_inflight s' = s_inflight s
+    /\ s_timers s' = s_timers s /\ s_aborted s' = s_aborted s /\ s_cancels s' = s_cancels s
+    /\ s_dropped s' = s_dropped s.
+  Definition same_tab_but_incs (o o' : ostate) : Prop :=
+    o_dropped o' = o_dropped o /\ pend_id o' = pend_id o /\ c_err (o_v o') = c_err (o_v o).
   Definition same_tab (o o' : ostate) : Prop :=
     o_incs o' = o_incs o /\ o_now o' = o_now o /\ o_dropped o' = o_dropped o
     /\ pend_id o' = pend_id o /\ c_err (o_v o') = c_err (o_v o).
@@ -277,9 +288,8 @@ Section Steps.
       assert (Ho : owns o s k e) by (exists hr, oi'; repeat split; auto).
       destruct (u_maybe0 k e oi Hin Ho Hoi Hm) as [L|R]; [left; exact L|right].
       apply Hc; auto. rewrite B in Hoi. inversion Hoi; subst. congruence.
-    - intros e He Hno. apply in_drop_entry in He. destruct He as [He Hne].
+    - intros Hce e He Hno. apply in_drop_entry in He. destruct He as [He Hne].
       apply in_drop_timer. split; [apply u_pend_timer0; auto|exact Hne].
-    - auto.
   Qed.
 
   (* ---- aborting a handle -------------------------------------------------------------------- *)
@@ -551,6 +561,7 @@ Section Steps.
     (forall e, In e (s_inflight s) -> e_id e <> id ->
        (pend_id o = Some (e_id e) \/ c_err (o_v o) = true) ->
        (pend_id o' = Some (e_id e) \/ c_err (o_v o') = true)) ->
+    (c_err (o_v o') = false -> c_err (o_v o) = false) ->
     s_inflight s' = drop_entry id (s_inflight s) -> s_timers s' = drop_timer id (s_timers s) ->
     (s_aborted s' = s_aborted s
      \/ exists e, find_entry id s = Some e /\ s_aborted s' = e_h e :: s_aborted s) ->
@@ -559,7 +570,7 @@ Section Steps.
     s_now s' = s_now s -> s_dropped s' = s_dropped s -> s_fused s' = s_fused s ->
     InvU o' s'.
   Proof.
-    intros o o' s s' id w HI Hincs Hw Hnow Hdr Heof Hpend Hi Ht Hab Hc Hh Hn Hnw Hd Hf.
+    intros o o' s s' id w HI Hincs Hw Hnow Hdr Heof Hpend Hcerr Hi Ht Hab Hc Hh Hn Hnw Hd Hf.
     set (kopt := last_open id (o_incs o)) in *.
     constructor.
     - rewrite Hincs, close_at_length, Hh. exact (u_len _ _ HI).
@@ -635,9 +646,9 @@ Section Steps.
       rewrite Y3, Y1, Hnw.
       destruct (u_maybe _ _ HI k e y He Ho Hy) as [L|R]; [congruence|left; exact L|right].
       apply Hc; auto. congruence.
-    - intros e He Hno. rewrite Hi in He. apply in_drop_entry in He. destruct He as [He Hne].
+    - intros Hce' e He Hno. rewrite Hi in He. apply in_drop_entry in He. destruct He as [He Hne].
       rewrite Ht, Hnw. apply in_drop_timer. split; [|exact Hne].
-      apply (u_pend_timer _ _ HI e He). rewrite <- Hh. exact Hno.
+      apply (u_pend_timer _ _ HI (Hcerr Hce') e He). rewrite <- Hh. exact Hno.
     - intros h Hin. rewrite Hn.
       destruct Hab as [Hab|(e & Hfe & Hab)]; rewrite Hab in Hin.
       + exact (u_abfresh _ _ HI h Hin).
@@ -705,7 +716,7 @@ Section Steps.
         rewrite <- X1, <- Hincs in *. eapply G; eauto. }
       rewrite Y3, Y1.
       destruct (u_maybe _ _ HI k e y He Ho Hy) as [L|R]; [congruence|left; exact L|right; congruence].
-    - exact (u_pend_timer _ _ HI).
+    - rewrite Hce. exact (u_pend_timer _ _ HI).
     - exact (u_abfresh _ _ HI).
   Qed.
 
@@ -787,10 +798,203 @@ Section Steps.
       + (* the new entry has no owner yet *)
         exfalso. cbn in C.
         destruct (u_hand _ _ HI k hr oi' A B) as (_ & _ & _ & Dlt). subst h. lia.
-    - intros e He Hno. rewrite Hi in He. rewrite Hha in Hno. rewrite Ht, Hw.
+    - intros _ e He Hno. rewrite Hi in He. rewrite Hha in Hno. rewrite Ht, Hw.
       apply in_app_or in He. apply in_or_app. destruct He as [He|[<-|[]]].
-      + left. exact (u_pend_timer _ _ HI e He Hno).
+      + left. exact (u_pend_timer _ _ HI Hce e He Hno).
       + right. left. reflexivity.
     - intros h0 Hin. rewrite Hab in Hin. rewrite Hn. pose proof (u_abfresh _ _ HI h0 Hin). lia.
+  Qed.
+
+  (* ---- the accepted request is yielded to the application ------------------------------------ *)
+  Lemma InvU_yield : forall o1 o' (s s' : st) qid qh qdl,
+    InvU o1 s -> c_err (o_v o1) = false ->
+    (forall j x, nth_error (o_incs o1) j = Some x -> open_id qid x = false) ->
+    (forall e, In e (s_inflight s) -> (forall hr, In hr (s_handlers s) -> h_h hr <> e_h e) ->
+               e = {| e_id := qid; e_h := qh; e_dl := qdl |}) ->
+    (forall hr, In hr (s_handlers s) -> h_h hr <> qh) -> qh < s_next_h s -> ~ In qh (s_aborted s) ->
+    (forall e, In e (s_inflight s) -> e_h e = qh -> e = {| e_id := qid; e_h := qh; e_dl := qdl |}) ->
+    o_incs o' = o_incs o1 ++ [mkoi qid qdl (when_of (o_now o1) qdl) None PFresh
+                                   (if N.leb (when_of (o_now o1) qdl) (o_now o1) then WMaybe else WOpen)
+                                   false] ->
+    pend_id o' = None -> c_err (o_v o') = false ->
+    o_now o' = o_now o1 -> o_dropped o' = o_dropped o1 -> (o_eof o1 = true -> o_eof o' = true) ->
+    s_handlers s' = s_handlers s ++ [{| h_h := qh; h_id := qid; h_st := HYielded |}] ->
+    same_core_but_handlers s s' -> s_fused s' = s_fused s ->
+    InvU o' s'.
+  Proof.
+    intros o1 o' s s' qid qh qdl HI Hce Hnoopen Hless Hfresh Hlt Hnab Huniq Hincs Hp Hce' Hnow Hdr Heof Hha
+           (Hn & Hi & Ht & Hab & Hc & Hw & Hd) Hf.
+    pose proof (u_len _ _ HI) as Hlen.
+    set (w := when_of (o_now o1) qdl) in *.
+    set (newoi := mkoi qid qdl w None PFresh (if N.leb w (o_now o1) then WMaybe else WOpen) false) in *.
+    assert (Hnew_open : is_open (oi_wire newoi) = true) by (subst newoi; cbn; destruct (N.leb w (o_now o1)); reflexivity).
+    assert (Hold : forall k x, nth_error (o_incs o1) k = Some x -> nth_error (o_incs o') k = Some x).
+    { intros k x Hx. rewrite Hincs, nth_error_app1; auto. apply nth_error_Some. congruence. }
+    assert (Hsplit : forall k x, nth_error (o_incs o') k = Some x ->
+               (nth_error (o_incs o1) k = Some x /\ k < length (o_incs o1))
+               \/ (k = length (o_incs o1) /\ x = newoi)).
+    { intros k x Hx. rewrite Hincs in Hx.
+      destruct (Nat.lt_ge_cases k (length (o_incs o1))) as [L|G].
+      - rewrite nth_error_app1 in Hx by exact L. auto.
+      - rewrite nth_error_app2 in Hx by exact G. right.
+        destruct (k - length (o_incs o1)) as [|m] eqn:Em; cbn in Hx.
+        + inversion Hx. split; [lia|reflexivity].
+        + destruct m; discriminate. }
+    assert (HsplitH : forall k hr, nth_error (s_handlers s') k = Some hr ->
+               (nth_error (s_handlers s) k = Some hr /\ k < length (s_handlers s))
+               \/ (k = length (s_handlers s) /\ hr = {| h_h := qh; h_id := qid; h_st := HYielded |})).
+    { intros k hr Hx. rewrite Hha in Hx.
+      destruct (Nat.lt_ge_cases k (length (s_handlers s))) as [L|G].
+      - rewrite nth_error_app1 in Hx by exact L. auto.
+      - rewrite nth_error_app2 in Hx by exact G. right.
+        destruct (k - length (s_handlers s)) as [|m] eqn:Em; cbn in Hx.
+        + inversion Hx. split; [lia|reflexivity].
+        + destruct m; discriminate. }
+    constructor.
+    - rewrite Hincs, Hha, !app_length. cbn. lia.
+    - rewrite Hnow, Hw. exact (u_now _ _ HI).
+    - rewrite Hdr, Hd. exact (u_dropped _ _ HI).
+    - rewrite Hf. intros F. apply Heof. exact (u_eof _ _ HI F).
+    - intros k hr oi Hk Hoi. rewrite Hn.
+      destruct (HsplitH _ _ Hk) as [[Hk' L]|[-> ->]]; destruct (Hsplit _ _ Hoi) as [[Hoi' L']|[E ->]]; try lia.
+      + exact (u_hand _ _ HI k hr oi Hk' Hoi').
+      + subst newoi. cbn. repeat split; auto.
+    - rewrite Hha, map_app. cbn. apply NoDup_app_one; [exact (u_hnodup _ _ HI)|].
+      intros Hin. apply in_map_iff in Hin. destruct Hin as (hr & E & Hin). exact (Hfresh hr Hin E).
+    - rewrite Hi. exact (u_enodup _ _ HI).
+    - rewrite Hi. exact (u_idnodup _ _ HI).
+    - rewrite Hi, Hn. exact (u_efresh _ _ HI).
+    - rewrite Hi, Ht. exact (u_timers _ _ HI).
+    - intros k1 k2 x1 x2 H1 H2 Hid Ho1 Ho2.
+      destruct (Hsplit _ _ H1) as [[H1' L1]|[E1 ->]]; destruct (Hsplit _ _ H2) as [[H2' L2]|[E2 ->]].
+      + exact (u_one_open _ _ HI k1 k2 x1 x2 H1' H2' Hid Ho1 Ho2).
+      + exfalso. pose proof (Hnoopen k1 x1 H1') as Hno. unfold open_id in Hno.
+        rewrite Hid in Hno. subst newoi. cbn in Hno. rewrite N.eqb_refl, Ho1 in Hno. discriminate.
+      + exfalso. pose proof (Hnoopen k2 x2 H2') as Hno. unfold open_id in Hno.
+        rewrite <- Hid in Hno. subst newoi. cbn in Hno. rewrite N.eqb_refl, Ho2 in Hno. discriminate.
+      + congruence.
+    - intros k oi Hoi Hop. rewrite Hw.
+      destruct (Hsplit _ _ Hoi) as [[Hoi' L]|[E ->]].
+      + exact (u_open_young _ _ HI k oi Hoi' Hop).
+      + subst newoi. cbn in *. destruct (N.leb w (o_now o1)) eqn:EL; [discriminate|].
+        apply N.leb_gt in EL. rewrite <- (u_now _ _ HI). exact EL.
+    - (* owners *)
+      intros e He. rewrite Hi in He.
+      destruct (u_owner _ _ HI e He) as [[k (hr & oi & A & B & C & D & E & F & G)]|[_ Hy]].
+      + left. exists k, hr, oi. rewrite Hha, Ht.
+        assert (Lk : k < length (s_handlers s)) by (apply nth_error_Some; congruence).
+        repeat split; auto.
+        * rewrite nth_error_app1; auto.
+        * intros k' oi' Hlt' Hoi'. destruct (Hsplit _ _ Hoi') as [[Hoi'' L]|[E' ->]].
+          -- eapply G; eauto.
+          -- subst newoi. cbn. intros Heq.
+             pose proof (Hnoopen k oi B) as Hno. unfold open_id in Hno.
+             rewrite D, <- Heq, N.eqb_refl, E in Hno. discriminate.
+      + left. pose proof (Hless e He Hy) as ->. cbn in *.
+        exists (length (s_handlers s)), {| h_h := qh; h_id := qid; h_st := HYielded |}, newoi.
+        rewrite Hha, Hincs, Ht. rewrite <- Hlen at 2.
+        rewrite !nth_error_app_last. repeat split; auto.
+        * pose proof (u_pend_timer _ _ HI Hce _ He Hy) as Htm. cbn in Htm.
+          subst newoi w. cbn. rewrite (u_now _ _ HI). exact Htm.
+        * intros k' oi' Hlt' Hoi'. exfalso.
+          assert (Hk' : k' < length (o_incs o1 ++ [newoi])) by (apply nth_error_Some; congruence).
+          rewrite app_length in Hk'. cbn in Hk'. lia.
+    - intros k hr oi Hk Hoi Hin. rewrite Hab in Hin. rewrite Hd.
+      destruct (HsplitH _ _ Hk) as [[Hk' L]|[-> ->]]; destruct (Hsplit _ _ Hoi) as [[Hoi' L']|[E ->]]; try lia.
+      + exact (u_aborted _ _ HI k hr oi Hk' Hoi' Hin).
+      + cbn in Hin. contradiction.
+    - intros k e oi He (hr & oi' & A & B & C & D & E & F & G) Hoi Hm. rewrite Hw, Hc.
+      rewrite Hi in He. rewrite B in Hoi. inversion Hoi; subst oi'.
+      destruct (Hsplit _ _ B) as [[B' L]|[Ek ->]].
+      + destruct (HsplitH _ _ A) as [[A' LA]|[Ek' _]]; [|lia].
+        apply (u_maybe _ _ HI k e oi He); auto.
+        exists hr, oi. rewrite Ht in F. repeat split; auto.
+        intros k' oi'' Hlt' Hoi''. eapply G; eauto.
+      + left. subst newoi. cbn in *. destruct (N.leb w (o_now o1)) eqn:EL; [|discriminate].
+        apply N.leb_le in EL. rewrite <- (u_now _ _ HI). exact EL.
+    - intros _ e He Hno. rewrite Hi in He. exfalso.
+      assert (Hno' : forall hr, In hr (s_handlers s) -> h_h hr <> e_h e).
+      { intros hr Hhr. apply Hno. rewrite Hha. apply in_or_app. left. exact Hhr. }
+      pose proof (Hless e He Hno') as ->. cbn in Hno.
+      apply (Hno {| h_h := qh; h_id := qid; h_st := HYielded |}); [|reflexivity].
+      rewrite Hha. apply in_or_app. right. left. reflexivity.
+    - rewrite Hab, Hn. exact (u_abfresh _ _ HI).
+  Qed.
+
+  (* ---- rewriting the whole table: settle, mark_late, age --------------------------------------- *)
+  Lemma InvU_map : forall o o' (s s' : st) (f : oinc -> oinc),
+    InvU o s -> o_incs o' = map f (o_incs o) ->
+    (forall i, oi_id (f i) = oi_id i /\ oi_when (f i) = oi_when i /\ oi_done (f i) = oi_done i
+               /\ oi_ph (f i) = oi_ph i) ->
+    (* wires only move towards closed; surely-open ones stay so only while their timer is not due *)
+    (forall i, is_open (oi_wire (f i)) = true -> is_open (oi_wire i) = true) ->
+    (forall i, oi_wire (f i) = WOpen -> oi_wire i = WOpen /\ (s_now s' < oi_when i)%N) ->
+    (forall i, oi_wire (f i) = WMaybe ->
+               (oi_wire i = WMaybe \/ (oi_when i <= s_now s')%N)) ->
+    (* owners keep an open wire *)
+    (forall k e oi, In e (s_inflight s) -> owns o s k e -> nth_error (o_incs o) k = Some oi ->
+                    is_open (oi_wire (f oi)) = true) ->
+    same_tab_but_incs o o' -> same_core_but_now s s' -> (s_now s <= s_now s')%N -> o_now o' = s_now s' ->
+    (c_err (o_v o) = false -> s_now s' <> s_now s -> all_owned o s) ->
+    (s_fused s' = true -> o_eof o' = true) ->
+    InvU o' s'.
+  Proof.
+    intros o o' s s' f HI Hincs Hf Hop Hopen Hmaybe Hown (T3 & T4 & T5)
+           (C1 & C2 & C3 & C4 & C5 & C6 & C8) Hle Hnow Hall Heof.
+    assert (Hnth : forall k x, nth_error (o_incs o') k = Some x ->
+               exists y, nth_error (o_incs o) k = Some y /\ x = f y).
+    { intros k x Hx. rewrite Hincs, nth_error_map in Hx.
+      destruct (nth_error (o_incs o) k) as [y|]; cbn in Hx; [|discriminate]. inversion Hx. eauto. }
+    constructor.
+    - rewrite Hincs, map_length, C1. exact (u_len _ _ HI).
+    - exact Hnow.
+    - rewrite T3, C8. exact (u_dropped _ _ HI).
+    - exact Heof.
+    - intros k hr oi Hk Hoi. rewrite C1 in Hk. destruct (Hnth _ _ Hoi) as (y & Hy & ->).
+      destruct (Hf y) as (F1 & F2 & F3 & F4). rewrite F1, F3, F4, C2. exact (u_hand _ _ HI k hr y Hk Hy).
+    - rewrite C1. exact (u_hnodup _ _ HI).
+    - rewrite C3. exact (u_enodup _ _ HI).
+    - rewrite C3. exact (u_idnodup _ _ HI).
+    - rewrite C3, C2. exact (u_efresh _ _ HI).
+    - rewrite C3, C4. exact (u_timers _ _ HI).
+    - intros k1 k2 x1 x2 H1 H2 Hid Ho1 Ho2.
+      destruct (Hnth _ _ H1) as (y1 & Hy1 & ->). destruct (Hnth _ _ H2) as (y2 & Hy2 & ->).
+      destruct (Hf y1) as (F1 & _). destruct (Hf y2) as (G1 & _).
+      apply (u_one_open _ _ HI k1 k2 y1 y2); auto; congruence.
+    - intros k oi Hoi Hw. destruct (Hnth _ _ Hoi) as (y & Hy & ->).
+      destruct (Hf y) as (_ & F2 & _). rewrite F2. apply Hopen. exact Hw.
+    - intros e He. rewrite C3 in He.
+      destruct (u_owner _ _ HI e He) as [[k Hk]|[Hx Hy]].
+      + left. exists k. pose proof Hk as (hr & oi & A & B & C & D & E & F & G).
+        exists hr, (f oi). destruct (Hf oi) as (F1 & F2 & _).
+        rewrite C1, C4, Hincs, nth_error_map, B. cbn. rewrite F1, F2. repeat split; auto.
+        * eapply Hown; eauto.
+        * intros k' oi' Hlt Hoi'. rewrite nth_error_map in Hoi'.
+          destruct (nth_error (o_incs o) k') as [y'|] eqn:Ey; cbn in Hoi'; [|discriminate].
+          inversion Hoi'. destruct (Hf y') as (Y1 & _). rewrite Y1. eapply G; eauto.
+      + right. rewrite T4, T5, C1. auto.
+    - intros k hr oi Hk Hoi Hin. rewrite C1 in Hk. rewrite C5 in Hin. rewrite C8.
+      destruct (Hnth _ _ Hoi) as (y & Hy & ->).
+      destruct (u_aborted _ _ HI k hr y Hk Hy Hin) as [L|R]; [left|right; exact R].
+      intros Hw. apply L. apply Hopen. exact Hw.
+    - intros k e oi He (hr & oi' & A & B & C & D & E & F & G) Hoi Hm.
+      rewrite C3 in He. rewrite B in Hoi. inversion Hoi; subst oi'.
+      destruct (Hnth _ _ B) as (y & Hy & ->). destruct (Hf y) as (F1 & F2 & _).
+      rewrite F1, F2, C6.
+      assert (Ho : owns o s k e).
+      { exists hr, y. rewrite C1 in A. rewrite C4 in F. rewrite F1 in D. rewrite F2 in F.
+        repeat split; auto.
+        - pose proof (Hop y E). exact H.
+        - intros k' oi'' Hlt Hoi''.
+          assert (nth_error (o_incs o') k' = Some (f oi'')) by (rewrite Hincs, nth_error_map, Hoi''; reflexivity).
+          destruct (Hf oi'') as (Z1 & _). rewrite <- Z1, <- F1. eapply G; eauto. }
+      destruct (Hmaybe y Hm) as [L|R]; [|left; exact R].
+      destruct (u_maybe _ _ HI k e y He Ho Hy L) as [L'|R']; [left; lia|right; exact R'].
+    - intros Hce e He Hno. rewrite T5 in Hce. rewrite C3 in He. rewrite C1 in Hno. rewrite C4.
+      destruct (N.eq_dec (s_now s') (s_now s)) as [Heq|Hne].
+      + rewrite Heq. exact (u_pend_timer _ _ HI Hce e He Hno).
+      + exfalso. destruct (Hall Hce Hne Hce e He) as (k & hr & oi & A & B & C & _).
+        apply (Hno hr); [eapply nth_error_In; eauto|exact C].
+    - rewrite C5, C2. exact (u_abfresh _ _ HI).
   Qed.
 End Steps.
